@@ -341,7 +341,9 @@ def _einsum_single(eq, x, backend=None):
     """
     try:
         return do("einsum", eq, x, like=backend)
-    except ImportError:
+    except (ImportError, UnicodeEncodeError):
+        # no einsum available, or one that only accepts ascii symbols (e.g.
+        # numpy) while the equation needs more than the 52 letters
         pass
 
     diag_sels, sum_axes, perm = _parse_einsum_single(eq, shape(x))
